@@ -87,6 +87,7 @@ class St:
         self.trace = []
         self.out = z3.Empty(SeqS)   # ghost output (print): sequence of printed lines
         self.facts = set()      # ast ids of the conjuncts of pc (for cheap syntactic lookups)
+        self.hook = None        # called as hook(state, field) when a heap field is first touched
 
     def fork(self):
         s = St()
@@ -100,6 +101,7 @@ class St:
         s.trace = list(self.trace)
         s.out = self.out
         s.facts = set(self.facts)
+        s.hook = self.hook
         return s
 
     def H(self, f):
@@ -107,6 +109,8 @@ class St:
             c = z3.Const('H0!' + f, HeapSort)
             self.heap[f] = c
             self.initial_syms.add('H0!' + f)
+            if self.hook is not None:
+                self.hook(self, f)
         return self.heap[f]
 
     def assume(self, *conds):
